@@ -37,9 +37,14 @@ def arg_kinds(proc):
     return out
 
 
-def fill_value(fill, argno, flat, typ):
+def fill_value(fill, name, flat, typ, plain=False):
+    """small, mostly distinct integers; a function of the argument NAME (stable under
+    signature changes), the element position and the drawn fill parameter"""
     tn = type(typ).__name__
+    argno = sum(ord(c) for c in name) % 7
     v = (flat * 3 + argno * 5 + fill * 7 + (flat // 4) * 2) % 13
+    if plain:
+        return v % 7
     if tn in ("UINT8", "UINT16"):
         return v % 7
     return v - 4
@@ -116,7 +121,11 @@ def build_args(proc, val, dom=None, override_values=None):
                 c = _layouts(shape, 0)[0]
                 choices.append([(shape, c[0], c[1], c[2])])
             else:
-                choices.append([(shape, o, st, tot) for (o, st, tot) in _layouts(shape, layout + i)])
+                if val.get("dense"):
+                    c = _layouts(shape, 0)[0]
+                    choices.append([(shape, c[0], c[1], c[2])])
+                else:
+                    choices.append([(shape, o, st, tot) for (o, st, tot) in _layouts(shape, layout + sum(ord(c) for c in nm) % 5)])
     stride_preds = [p for p in proc.preds if _mentions_stride(p)]
     chosen = None
     if stride_preds:
@@ -143,7 +152,7 @@ def build_args(proc, val, dom=None, override_values=None):
         bt = t.basetype()
         buf = Buffer(tot, nm, bt, is_arg=True)
         for f in range(tot):
-            raw = fill_value(fill, i, f, bt) if override_values is None else override_values(nm, f)
+            raw = fill_value(fill, nm, f, bt, val.get("plain", False)) if override_values is None else override_values(nm, f)
             buf.data[f] = dom.from_input(raw, bt)
         v = View(buf, off, st, shape, k == "window")
         env[fa.name] = v
